@@ -95,6 +95,8 @@ def _main_check(ctx: Ctx) -> None:
     rfi, sp, rt = midi.reader_table(p)
     ctx.analysed(rfi)
     ctx.floor("reader dispatch cases decided", midi.parse_rule(ctx), 18)
+    from ..engines.structure import times_of_type_rule
+    ctx.floor("signature look-up helper obligations", times_of_type_rule(ctx), 4)
     field_map = {
         "NOTE_ON": {"note": "note", "velocity": "velocity"},
         "NOTE_OFF": {"note": "note"},
